@@ -628,6 +628,35 @@ class Theory:
                                self.e_value(ent))),
                    [self.m_get(res, sk)])
 
+        # ---- typed values, part 2: dicts, and what patching a typed value means ----
+        self.as_map = f('as_map', V, self.M)
+        self.of_map = f('of_map', self.M, V)
+        self.axiom('of_map_tag', [m], z3.And(self.is_dict(self.of_map(m)), self.as_map(self.of_map(m)) == m), [self.of_map(m)])
+        self.axiom('as_map_inv', [v], z3.Implies(self.is_dict(v), self.of_map(self.as_map(v)) == v), [self.as_map(v)])
+        # apply_v on containers IS the documented list / mapping application (strings: apply_v stays abstract, Kit S not built)
+        self.axiom('apply_v_list', [v, D],
+                   z3.Implies(self.is_list(v), self.apply_v(v, D) == self.of_list(self.apply_seq(self.as_list(v), D))),
+                   [self.apply_v(v, D)])
+        self.axiom('apply_v_dict', [v, D],
+                   z3.Implies(self.is_dict(v), self.apply_v(v, D) == self.of_map(self.apply_map(self.as_map(v), D))),
+                   [self.apply_v(v, D)])
+        # wf_v(v, D): D is a well-formed diff for the typed value v, all the way down
+        self.wf_v = f('wf_v', V, SE.sort, B)
+        self.wf_str = f('wf_str', V, SE.sort, B)
+        ent_i = SE.idx(D, i)
+        self.axiom('wf_v_def', [v, D],
+                   self.wf_v(v, D) == z3.Or(
+                       z3.And(self.is_list(v), self.wf_seq(D, SV.len(self.as_list(v))),
+                              z3.ForAll([i], z3.Implies(z3.And(0 <= i, i < SE.len(D), op(ent_i) == O['patch']),
+                                                        self.wf_v(SV.idx(self.as_list(v), self.e_key(ent_i)), self.e_diff(ent_i))),
+                                        patterns=[SE.idx(D, i)])),
+                       z3.And(self.is_dict(v), self.wf_map(D, self.as_map(v)),
+                              z3.ForAll([i], z3.Implies(z3.And(0 <= i, i < SE.len(D), op(ent_i) == O['patch']),
+                                                        self.wf_v(self.m_get(self.as_map(v), self.e_skey(ent_i)), self.e_diff(ent_i))),
+                                        patterns=[SE.idx(D, i)])),
+                       z3.And(self.is_str(v), self.wf_str(v, D))),
+                   [self.wf_v(v, D)])
+
     def all_axioms(self):
         return [a for _, a in self.axioms]
 
